@@ -156,8 +156,8 @@ Proof.
   - destruct (ntr o); cbn in *; lia.
 Qed.
 
-Lemma make_gray_again_minv c p o :
-  Inv None c -> MInv c -> ph c = Mark -> get c p = Some o -> col o = Black -> ntr o = true ->
+Lemma make_gray_again_minv e c p o :
+  Inv e c -> MInv c -> ph c = Mark -> get c p = Some o -> col o = Black -> ntr o = true ->
   MInv (make_gray_again c p).
 Proof.
   intros I [M1 M2 M3] HM G B N.
@@ -166,7 +166,7 @@ Proof.
     { apply filter_In. split; [apply (i_all _ _ I); eexists; eauto|]. unfold black_ntr. rewrite G, B, N. reflexivity. }
     destruct (filter (black_ntr c) (all c)); [destruct Hin|cbn; lia]. }
   specialize (M3 HM).
-  destruct (make_gray_again_metrics None c p o I G B M1 ltac:(lia)) as [U [T [TT [A NBk]]]].
+  destruct (make_gray_again_metrics e c p o I G B M1 ltac:(lia)) as [U [T [TT [A NBk]]]].
   constructor; auto.
   - rewrite TT, A. auto.
   - intros _. rewrite T. rewrite N in NBk. cbn [b2n] in NBk. lia.
